@@ -281,12 +281,17 @@ luaL_setfuncs({LUA_state_var}, {LUA_class_reg}, 0);
                 lines, "int SH_nargs = lua_gettop({LUA_state_var});", fmt
             )
 
+            # slot 1 holds the object for methods.
+            ishift = 0
+            if cls and not is_ctor:
+                ishift = 1
+
             # Find type of each argument
             itype_vars = []
             for iarg in range(1, maxargs + 1):
                 itype_vars.append("SH_itype{}".format(iarg))
                 fmt.itype_var = itype_vars[-1]
-                fmt.iarg = iarg
+                fmt.iarg = iarg + ishift
                 append_format(
                     lines,
                     "int {itype_var} = " "lua_type({LUA_state_var}, {iarg});",
@@ -297,7 +302,7 @@ luaL_setfuncs({LUA_state_var}, {LUA_class_reg}, 0);
             for nargs, calls in enumerate(by_count):
                 if len(calls) == 0:
                     continue
-                lines.append("case {}:".format(nargs))
+                lines.append("case {}:".format(nargs + ishift))
                 lines.append(1)
                 ifelse = "if"
 
@@ -509,7 +514,10 @@ luaL_setfuncs({LUA_state_var}, {LUA_class_reg}, 0);
 
         # Only process nargs.
         # Each variation of default-arguments produces a new call.
+        # slot 1 holds the object for methods.
         LUA_index = 1
+        if cls and not is_ctor:
+            LUA_index = 2
         for iarg in range(luafcn.nargs):
             arg = ast.params[iarg]
             arg_name = arg.name
